@@ -318,7 +318,7 @@ func installEventMonitor(w *Writers, prop string) {
 			_ = sim.Quiesce()
 		}
 		// the legacy channel subscriber reads everything that has been delivered to it so far
-		if a[0] == 'L' || a[0] == 'S' {
+		if a[0] == 'L' || a[0] == 'S' || a[0] == 'P' {
 			for i := range w.Stores {
 				if a[1] == byte('0'+i) {
 					subscribeLegacy(w, i) // new store object after a restart
@@ -361,7 +361,7 @@ func installEventMonitor(w *Writers, prop string) {
 		m.mu.Lock()
 		defer m.mu.Unlock()
 		for i := range w.Stores {
-			if _, has := m.legacy[i]; has && a[0] != 'L' && a[0] != 'S' {
+			if _, has := m.legacy[i]; has && a[0] != 'L' && a[0] != 'S' && a[0] != 'P' {
 				// events emitted since the legacy subscription was made
 				em := m.emitted[i]
 				if n := len(em) - len(m.legacyRx[i]); n >= 0 && m.legacyBase[i] <= len(em) {
@@ -382,7 +382,7 @@ func installEventMonitor(w *Writers, prop string) {
 					Detail: fmt.Sprintf("replica %d: emitted %d events, slow subscriber received %d: %v vs %v", i, len(m.emitted[i]), len(m.received[i]), m.emitted[i], m.received[i])})
 			}
 		}
-		if a[0] == 'L' || a[0] == 'S' {
+		if a[0] == 'L' || a[0] == 'S' || a[0] == 'P' {
 			return
 		}
 		for i, s := range w.Stores {
@@ -440,6 +440,11 @@ func init() {
 					x.Arg = "A" + x.Arg
 					u = append(u, x)
 				}
+			}
+			// entries merged BELOW the heads: the observer reloads only its newest entry, then older entries are announced
+			for _, x := range c01Units(C01Arg{DFSArg: DFSArg{Kind: "eventlog", Writers: 1, Depth: 5, Alpha: "one"}, Observer: true, Routes: []string{"sync"}, Antichains: true, Partial: true}, 8) {
+				x.Arg = "A" + x.Arg
+				u = append(u, x)
 			}
 			// part A over batches that contain rejected entries
 			for _, k := range []string{"nonwriter", "badancestor"} {
